@@ -92,6 +92,11 @@ type Cmd struct {
 	Argv    []string
 	Stdin   []byte
 	Timeout time.Duration // watchdog; firing means inconclusive
+	// FileIO sends stdout/stderr to regular files instead of pipes. Programs that print with the
+	// println builtin need it: the runtime issues one write(2) per piece and never retries a short
+	// count, so a write to a *full pipe* that a signal (async preemption) interrupts loses the rest
+	// of the piece. Regular files never return short counts.
+	FileIO bool
 }
 
 type Res struct {
@@ -126,8 +131,29 @@ func Run(c Cmd) Res {
 		cmd.Stdin = bytes.NewReader(c.Stdin)
 	}
 	var out, errb bytes.Buffer
-	cmd.Stdout = &out
-	cmd.Stderr = &errb
+	var outF, errF *os.File
+	if c.FileIO {
+		dir := scratchRoot
+		if dir == "" {
+			dir = os.TempDir()
+		}
+		var e1, e2 error
+		outF, e1 = os.CreateTemp(dir, "stdout-*")
+		errF, e2 = os.CreateTemp(dir, "stderr-*")
+		if e1 != nil || e2 != nil {
+			return Res{RC: -1, StartErr: fmt.Errorf("cannot create output files: %v %v", e1, e2)}
+		}
+		defer func() {
+			for _, f := range []*os.File{outF, errF} {
+				f.Close()
+				os.Remove(f.Name())
+			}
+		}()
+		cmd.Stdout, cmd.Stderr = outF, errF
+	} else {
+		cmd.Stdout = &out
+		cmd.Stderr = &errb
+	}
 	cmd.SysProcAttr = &syscall.SysProcAttr{Setpgid: true}
 	// If a grandchild keeps the pipes open after we kill, don't wait forever.
 	cmd.WaitDelay = 5 * time.Second
@@ -148,6 +174,10 @@ func Run(c Cmd) Res {
 		res.TimedOut = true
 	}
 	res.Out, res.Err, res.Dur = out.Bytes(), errb.Bytes(), time.Since(start)
+	if c.FileIO {
+		res.Out, _ = os.ReadFile(outF.Name())
+		res.Err, _ = os.ReadFile(errF.Name())
+	}
 	return res
 }
 
